@@ -322,6 +322,18 @@ POOLS = {
 
 
 # ---------------------------------------------------------------- viewer world
+def link_sum(x, y):
+    return x + y
+
+
+def link_fw2(x, y):
+    return x + y, x - y
+
+
+def link_bw2(u, v):
+    return (u + v) / 2.0, (u - v) / 2.0
+
+
 def exception_detail(e):
     """Structural class of an exception raised by glue during an operation (goes into signatures)."""
     if isinstance(e, AttributeError) and "'NoneType' has no attribute" in str(e):
@@ -396,6 +408,10 @@ class VWorld:
         self.links = []
         self.prev_raised = False
         self.pending_readd = None
+        self.pending_append = None
+        self.sig_flags = {}
+        self.pending_ops = []        # operation kinds scheduled by an earlier operation (delete what was just created, ...)
+        self.fresh_ungrouped = []
         self.pending_readd_now = None
         self.script_empty_now = False
         self.auto = None
@@ -574,9 +590,19 @@ def gen_viewer_op(world, rng):
              ("set_group_state", 4), ("add_component", 5), ("remove_component", 5), ("rename_component", 3),
              ("reorder_components", 2), ("add_subset", 3), ("remove_subset", 3), ("remove_layer", 3),
              ("state_layers_remove", 2), ("select", 10), ("flip_filter", 4), ("add_data_outside", 1),
-             ("update_values", 2), ("coords_change", 1), ("clear_collection", 1), ("many_groups", 2), ("add_link", 2),
-             ("remove_link", 1), ("readd_after_emptied", 5), ("remove_all_data_layers", 4)]
-    name = rng.choices([k for k, _ in table], [w for _, w in table])[0]
+             ("update_values", 2), ("coords_change", 1), ("clear_collection", 1), ("many_groups", 2), ("add_link", 6),
+             ("remove_link", 1), ("readd_after_emptied", 5), ("remove_all_data_layers", 4), ("remove_linked_dataset", 4),
+             ("ungrouped_shared_state", 6), ("ungrouped_twin_on_one_dataset", 1), ("ungrouped_new_subset", 2),
+             ("delete_ungrouped", 6)]
+    if world.pending_append is not None:
+        d = world.pending_append
+        world.pending_append = None
+        if not is_in(d, in_dc):
+            return "append:after_linked_removal", (lambda: dc.append(d)), None
+    forced = None
+    if world.pending_ops:
+        forced = world.pending_ops.pop(0)
+    name = forced or rng.choices([k for k, _ in table], [w for _, w in table])[0]
     if world.script_empty_now and [d for d in world.given if is_in(d, in_dc)]:
         # scripted half-way through 40 % of the histories: take everything away from the viewer, then (next step) give
         # the same dataset back
@@ -642,7 +668,7 @@ def gen_viewer_op(world, rng):
         name = "remove_layer"
     if name == "clear_collection" and len(in_dc) >= 1:
         def upd_clear(ok, ret):
-            world.given, world.lonely, world.hidden = [], [], []
+            world.given, world.lonely, world.hidden, world.links = [], [], [], []
         return "clear_collection", (lambda: dc.clear()), upd_clear
     if name == "many_groups" and in_dc:
         d = rng.choice(in_dc)
@@ -654,16 +680,125 @@ def gen_viewer_op(world, rng):
                 dc.new_subset_group(subset_state=nums[0] > rng.randint(0, 5), label=world.fresh("g"))
         return "new_group:many", call_many, None
     if name == "add_link" and len(in_dc) >= 2:
-        from glue.core.link_helpers import LinkSame
+        from glue.core.link_helpers import LinkSame, MultiLink
+        from glue.core.component_link import ComponentLink
         a, b = rng.sample(in_dc, 2)
-        if _has(a, "x") and _has(b, "x"):
-            link = LinkSame(a.id["x"], b.id["x"])
-            world.links.append(link)
-            return "add_link", (lambda: dc.add_link(link)), None
+        # prefer datasets the viewer shows
+        shown = [d for d in in_dc if is_in(d, world.given)]
+        if shown and rng.random() < 0.7:
+            a = rng.choice(shown)
+            b = rng.choice([d for d in in_dc if d is not a])
+        if _has(a, "x") and _has(a, "y") and _has(b, "x") and _has(b, "y"):
+            kind = rng.choice(["same", "multi_input", "multi_input", "multi_input", "two_way_multi", "celestial", "celestial"])
+            if kind == "same":
+                link = LinkSame(a.id["x"], b.id["x"])
+            elif kind == "multi_input":
+                # one attribute of b computed from two attributes of a
+                link = ComponentLink([a.id["x"], a.id["y"]], b.id["y"], using=link_sum)
+            elif kind == "two_way_multi":
+                link = MultiLink([a.id["x"], a.id["y"]], [b.id["x"], b.id["y"]], forwards=link_fw2, backwards=link_bw2)
+            else:
+                from glue.plugins.coordinate_helpers.link_helpers import ICRS_to_Galactic
+                link = ICRS_to_Galactic([a.id["x"], a.id["y"]], [b.id["x"], b.id["y"]])
+            world.links.append((link, a, b, kind))
+
+            def upd_link(ok, ret):
+                if ok and kind != "same" and rng.random() < 0.7:
+                    world.pending_ops.append("remove_linked_dataset")
+            return "add_link:" + kind, (lambda: dc.add_link(link)), upd_link
         return "noop", (lambda: None), None
     if name == "remove_link" and world.links:
-        link = world.links.pop(rng.randrange(len(world.links)))
+        link = world.links.pop(rng.randrange(len(world.links)))[0]
         return "remove_link", (lambda: dc.remove_link(link)), None
+    if name == "remove_linked_dataset":
+        # remove a dataset that takes part in a multi-input link (and give it back to the collection next)
+        cands = [(l, a_, b_, k) for (l, a_, b_, k) in world.links if k != "same" and is_in(a_, in_dc) and is_in(b_, in_dc)]
+        if cands and len(in_dc) > 1:
+            l, a_, b_, k = rng.choice(cands)
+            d = rng.choice([a_, a_, b_])      # mostly the side that contributes two attributes to one link
+            world.pending_append = d
+            world.ctx.count("remove_dataset_with_multi_input_link:" + k)
+
+            def upd_rm(ok, ret):
+                if not ok:
+                    world.ctx.count("dc_remove_raised_with_multi_input_link:" + k)
+                world.given = [x for x in world.given if x is not d]
+                world.lonely = [x for x in world.lonely if x.data is not d]
+                world.hidden = [x for x in world.hidden if x.data is not d]
+                world.links = [t for t in world.links if t[1] is not d and t[2] is not d]
+            return "remove:linked_" + k, (lambda: dc.remove(d)), upd_rm
+        return "noop", (lambda: None), None
+    if name in ("ungrouped_shared_state", "ungrouped_twin_on_one_dataset", "ungrouped_new_subset") and in_dc:
+        nums_of = lambda d: [c for c in d.main_components if attr_kind(d, c) == "numerical"] or [d.pixel_component_ids[0]]
+        if name == "ungrouped_shared_state" and len(in_dc) < 2:
+            name = "ungrouped_new_subset"
+        if name == "ungrouped_shared_state":
+            # the SAME SubsetState object attached to two or three datasets: the Subset objects compare equal (state and
+            # style) without being identical; each is one of its dataset's current subsets
+            shown = [d for d in in_dc if is_in(d, world.given)]
+            rest = [d for d in in_dc if not is_in(d, shown)]
+            ds = (shown + rest)[:rng.randint(2, 3)]
+            st = nums_of(ds[0])[0] > rng.randint(0, 6)
+
+            to_show = [d for d in ds if not is_in(d, world.given) and not (world.kind == "image" and d.ndim < 2)]
+            shown_now = []
+
+            def call_shared():
+                for d in to_show:
+                    if v.add_data(d):
+                        shown_now.append(d)
+                for d in ds:
+                    d.add_subset(st, label=world.fresh("u"))
+                    world.fresh_ungrouped.append(d.subsets[-1])
+
+            def upd_shared(ok, ret):
+                for d in shown_now:
+                    if not is_in(d, world.given):
+                        world.given.append(d)
+                        world.lonely = [x for x in world.lonely if x.data is not d]
+                    if not is_in(d, world.ever_given):
+                        world.ever_given.append(d)
+                if rng.random() < 0.8:
+                    world.pending_ops += ["delete_ungrouped"] * rng.randint(1, 2)
+            world.ctx.count("ungrouped_shared_state_over_datasets:%d" % len(ds))
+            world.ctx.count("ungrouped_shared_state_over_datasets_shown:%d" % len([d for d in ds if is_in(d, world.given) or is_in(d, to_show)]))
+            return "add_ungrouped_subset:shared_state", call_shared, upd_shared
+        d = rng.choice([x for x in in_dc if is_in(x, world.given)] or in_dc)
+        if name == "ungrouped_twin_on_one_dataset":
+            st = nums_of(d)[0] > rng.randint(0, 6)
+
+            def call_twin():
+                d.add_subset(st, label=world.fresh("u"))
+                world.fresh_ungrouped.append(d.subsets[-1])
+                d.add_subset(st, label=world.fresh("u"))
+                world.fresh_ungrouped.append(d.subsets[-1])
+
+            def upd_twin(ok, ret):
+                world.pending_ops.append("delete_ungrouped")
+            return "add_ungrouped_subset:twins_on_one_dataset", call_twin, upd_twin
+
+        def call_new():
+            sub = d.new_subset(label=world.fresh("u"))
+            sub.subset_state = nums_of(d)[0] > rng.randint(0, 6)
+        return "add_ungrouped_subset:new_subset", call_new, None
+    if name == "delete_ungrouped":
+        from glue.core.subset_group import GroupedSubset
+        ung = [s_ for d in in_dc for s_ in d.subsets if not isinstance(s_, GroupedSubset)]
+        recent = [x for x in world.fresh_ungrouped if is_in(x, ung)]
+        world.fresh_ungrouped = recent
+        if ung:
+            s_ = rng.choice(recent) if recent and rng.random() < 0.8 else rng.choice(ung)
+            equal_others = [o for o in s_.data.subsets if o is not s_ and o == s_]
+            variant = "with_equal_twin_on_same_dataset" if equal_others else \
+                ("with_equal_subset_elsewhere" if any(o is not s_ and o == s_ for d in in_dc for o in d.subsets) else "plain")
+            world.ctx.count("delete_ungrouped_variant:" + variant)
+
+            def upd_del(ok, ret):
+                if variant == "with_equal_twin_on_same_dataset":
+                    # structural marker for signatures (the operation name is lost inside delay blocks)
+                    world.sig_flags["deleted_subset_with_equal_twin_on_same_dataset"] = True
+            return "delete_ungrouped:" + variant, (lambda: s_.delete()), upd_del
+        return "noop", (lambda: None), None
     if world.kind == "image" and name in ("select", "flip_filter") and rng.random() < 0.45:
         # the image viewer's special case: ask for the attribute that is currently shown on the other axis
         st = v.state
@@ -733,6 +868,7 @@ def gen_viewer_op(world, rng):
             world.given = [x for x in world.given if x is not d]
             world.lonely = [x for x in world.lonely if x.data is not d]
             world.hidden = [x for x in world.hidden if x.data is not d]
+            world.links = [t for t in world.links if t[1] is not d and t[2] is not d]
         return name, (lambda: dc.remove(d)), upd_remove
     if name == "new_group" and in_dc:
         d = rng.choice(in_dc)
@@ -1089,6 +1225,7 @@ def report_viewer(ctx, world, name, prev, trace, res, stage="live"):
     for kind, extra, detail in res:
         sig = {"kind": kind, "viewer": world.kind, "op": name.split(":")[0] if not name.startswith("block") else "delay_block",
                "stage": stage, "after_exception": world.after_exception}
+        sig.update(getattr(world, "sig_flags", {}))
         if world.after_exception:
             sig["exception_in"] = world.exception_in
             sig["exception_detail"] = world.exception_kind
@@ -1129,6 +1266,12 @@ def save_restore(ctx, world, trace):
     kind = world.kind
     v = world.viewer
     saved_keys = [layer_key(a.layer) for a in v.layers]
+    from glue.core.subset_group import GroupedSubset
+    if any(not isinstance(s_, GroupedSubset) for d_ in world.dc for s_ in d_.subsets):
+        # sessions do not support subsets outside groups (glue warns and converts them to groups on load): no restore
+        # comparison while such subsets exist
+        ctx.count("save_restore_skipped_ungrouped_subsets_present:" + kind)
+        return 0
     ctx.count("save_restore_attempts:" + kind)
     trace.append(["save_restore", "..."])
     try:
@@ -1561,6 +1704,12 @@ def floors(counters, tier):
         out.append("fewer than 3 datasets handed to a viewer by a listener during hub delivery")
     if counters.get("picker_op:numeric_off", 0) + counters.get("picker_op:all_flags", 0) < 40:
         out.append("fewer than 40 picker steps switching the numeric filter off / all filters at once")
+    if sum(counters.get("ungrouped_shared_state_over_datasets_shown:%d" % k, 0) for k in (2, 3)) < 10:
+        out.append("fewer than 10 shared-state ungrouped subsets over two or more datasets shown in the viewer")
+    if sum(v for k, v in counters.items() if k.startswith("delete_ungrouped_variant:with_equal")) < 8:
+        out.append("fewer than 8 deletions of an ungrouped subset that has an equal twin")
+    if sum(v for k, v in counters.items() if k.startswith("remove_dataset_with_multi_input_link:")) < 5:
+        out.append("fewer than 5 removals of a dataset that takes part in a multi-input link")
     if counters.get("picker_op:ephemeral_dataset", 0) < 10:
         out.append("fewer than 10 picker steps with short-lived datasets")
     return out
